@@ -37,6 +37,11 @@ func registerSym(e *Engine) {
 		e.reg(pre+"Fault", func(fr *frame, args []value) value {
 			return fr.p.newInput("fault:"+strArg(args[0]), SBool, nil, nil)
 		})
+		e.reg(pre+"Str", func(fr *frame, args []value) value {
+			t := fr.p.newInput(strArg(args[0]), SStr, nil, nil)
+			fr.p.usedStrings = true
+			return &SymStr{parts: []strPart{{kind: "s", t: t}}}
+		})
 		e.reg(pre+"Uint64", func(fr *frame, args []value) value {
 			return fr.p.newInput(strArg(args[0]), SInt, big0, new(big.Int).Sub(pow2(64), big1))
 		})
